@@ -10,6 +10,7 @@ import json
 import math
 import operator
 import posixpath
+from pathlib import PurePosixPath
 import re
 import statistics
 from fractions import Fraction
@@ -23,6 +24,7 @@ from sa.sym import UnknownAtom, atoms_of, parse_expr, rat_equal
 from sa.tables import Unsupported
 
 _M = "esrally/metrics.py"
+_RC = "esrally/racecontrol.py"
 
 REQUEST_QUERIES = {"get_stats", "get_mean", "get_median", "get_percentiles", "get_error_rate", "get", "get_raw", "get_one"}
 COUNTS = [1, 2, 5, 9, 10, 50, 99, 100, 500, 999, 1000, 5000, 9999, 10000, 10**6]
@@ -143,6 +145,21 @@ _M_BIN = {ast.Add: operator.add, ast.Sub: operator.sub, ast.Mult: operator.mul, 
 _NUM = (int, float)
 
 
+class _Gen(list):
+    """the value of a generator expression: its elements, computed eagerly (an element the machine cannot evaluate makes the whole expression 'not evaluable', never a verdict);
+    `next` consumes it from the front, everything else reads it like the list of what is left."""
+
+
+def _next(*a):
+    if len(a) not in (1, 2) or not isinstance(a[0], _Gen):
+        raise TypeError("next() of something that is not a generator value of the machine")
+    if a[0]:
+        return a[0].pop(0)
+    if len(a) == 2:
+        return a[1]
+    raise _Raised("next() of an exhausted generator (StopIteration)", etype="StopIteration")
+
+
 def _bounded_range(*a):
     r = range(*a)
     if len(r) > 100000:
@@ -159,7 +176,7 @@ _M_PURE = {
     "statistics.mean": statistics.mean, "statistics.fmean": statistics.fmean, "statistics.median": statistics.median, "statistics.median_low": statistics.median_low,
     "statistics.median_high": statistics.median_high, "collections.OrderedDict": dict, "OrderedDict": dict,
     "bisect.bisect": bisect.bisect, "bisect.bisect_right": bisect.bisect_right, "bisect.bisect_left": bisect.bisect_left, "bisect_right": bisect.bisect_right, "bisect_left": bisect.bisect_left,
-    "operator.itemgetter": operator.itemgetter,
+    "operator.itemgetter": operator.itemgetter, "next": _next, "iter": lambda x: x if isinstance(x, _Gen) else _Gen(x) if isinstance(x, (list, tuple, dict, str)) else _next(),
 }
 _M_VALUE_METHODS = {
     list: {"append", "extend", "insert", "sort", "reverse", "count", "index", "copy", "pop"},
@@ -261,6 +278,8 @@ class _Machine:
             raise CannotEval(f"{short(e, 60)}: operand")
         if t is ast.BinOp:
             a, b = self.expr(e.left, env), self.expr(e.right, env)
+            if isinstance(e.op, ast.Div) and (isinstance(a, _PathV) or isinstance(b, _PathV)):
+                return a.join(b) if isinstance(a, _PathV) else b.rjoin(a)
             num = all(isinstance(x, _NUM) and not isinstance(x, bool) for x in (a, b))
             same_seq = any(isinstance(a, k) and isinstance(b, k) for k in (list, tuple, str)) and isinstance(e.op, ast.Add)
             rep = isinstance(e.op, ast.Mult) and ((isinstance(a, (list, tuple, str)) and type(b) is int) or (isinstance(b, (list, tuple, str)) and type(a) is int))
@@ -372,7 +391,7 @@ class _Machine:
 
         rec(0, env)
         try:
-            return dict(out) if isinstance(e, ast.DictComp) else set(out) if isinstance(e, ast.SetComp) else out
+            return dict(out) if isinstance(e, ast.DictComp) else set(out) if isinstance(e, ast.SetComp) else _Gen(out) if isinstance(e, ast.GeneratorExp) else out
         except TypeError:
             raise CannotEval(f"{short(e, 60)}: unhashable element")
 
@@ -417,6 +436,8 @@ class _Machine:
                 return self.hooks[f.id](self.bind(fd, args, kwargs) if fd is not None else {"args": args, "kwargs": kwargs})
             if f.id in self.functions:
                 return self.apply(_Closure(self.functions[f.id], {}), args, kwargs)
+            if isinstance(self.names.get(f.id), _Stub) and not isinstance(self.names[f.id].calls, _LazyCalls) and "__call__" in self.names[f.id].calls:
+                return self.names[f.id].calls["__call__"](args, kwargs, e)  # a modelled library class imported by name (from pathlib import Path)
         if d == "vars" and len(args) == 1 and not kwargs and isinstance(args[0], Record):
             return args[0].fields
         if d in _M_PURE and (not isinstance(f, ast.Attribute) or d.split(".")[0] not in env):
@@ -1489,6 +1510,119 @@ class _LazyCalls(dict):
         return dict.__getitem__(self, k)
 
 
+class _PathFields(dict):
+    """the attributes of a path value, computed when read (`parent` of a path is again a path)."""
+
+    _PURE = ("name", "stem", "suffix", "suffixes", "parts", "anchor", "root", "drive")
+
+    def __init__(self, owner):
+        super().__init__()
+        self.owner = owner
+
+    def __contains__(self, k):
+        return k in self._PURE or k == "parent"
+
+    def __getitem__(self, k):
+        if k == "parent":
+            return _PathV(self.owner.fs, self.owner.pp.parent)
+        if k in self._PURE:
+            v = getattr(self.owner.pp, k)
+            return list(v) if k == "suffixes" else v
+        raise KeyError(k)
+
+    def get(self, k, default=None):
+        return self[k] if k in self else default
+
+
+class _PathV(_Stub):
+    """a pathlib path over the model file system: the pure part (joining, name / parent / suffix, str) is that of PurePosixPath, the methods that touch the file system (exists, is_file,
+    is_dir, read_text, write_text, open, mkdir, glob, iterdir) act on the model."""
+
+    def __init__(self, fs, pp):
+        self.fs, self.pp = fs, pp
+        Record.__init__(self)
+        self.fields = _PathFields(self)
+        wrap = lambda x: _PathV(fs, x)
+        text = lambda x: x.path if isinstance(x, _PathV) else x if isinstance(x, str) else _Machine._no(ast.Constant(value="path argument that is neither text nor a path"))
+
+        def g(fn, ok_kw=()):
+            def f(a, k, n):
+                if set(k) - set(ok_kw):
+                    raise CannotEval(f"call {short(n, 60)}: keyword(s) {sorted(set(k) - set(ok_kw))} of a path method are not modelled")
+                try:
+                    return fn(*a, **k)
+                except (TypeError, ValueError, AttributeError) as x:
+                    raise CannotEval(f"call {short(n, 60)}: {type(x).__name__}")
+            return f
+
+        def write_text(data, encoding=None, errors=None, newline=None):
+            if not isinstance(data, str):
+                raise CannotEval("write_text() of something that is not text")
+            return fs.open(self.path, "w").calls["write"]([data], {}, None)
+
+        def read_text(encoding=None, errors=None):
+            return fs.open(self.path, "r").calls["read"]([], {}, None)
+
+        def mkdir(mode=0o777, parents=False, exist_ok=False):
+            p_ = fs.norm(self.path)
+            if not parents and posixpath.dirname(p_) not in fs.dirs:
+                raise _Raised(f"Path({p_!r}).mkdir(): the parent directory does not exist (FileNotFoundError)", etype="FileNotFoundError")
+            fs.makedirs(p_, exist_ok)
+
+        def glob_(pattern):
+            if not isinstance(pattern, str) or "**" in pattern or pattern.startswith("/"):
+                raise CannotEval(f"Path.glob({pattern!r}) is not modelled")
+            return [_PathV(fs, PurePosixPath(x)) for x in fs.glob(posixpath.join(self.path, pattern))]
+
+        self.calls = {
+            "exists": g(lambda: fs.exists(self.path)), "is_file": g(lambda: fs.norm(self.path) in fs.files), "is_dir": g(lambda: fs.norm(self.path) in fs.dirs),
+            "read_text": g(read_text, ("encoding", "errors")), "write_text": g(write_text, ("encoding", "errors", "newline")),
+            "open": g(lambda mode="r", buffering=-1, encoding=None, errors=None, newline=None: fs.open(self.path, mode), ("mode", "encoding", "errors", "newline")),
+            "mkdir": g(mkdir, ("mode", "parents", "exist_ok")), "glob": g(glob_), "iterdir": g(lambda: [wrap(self.pp / x) for x in fs.listdir(self.path)]),
+            "joinpath": g(lambda *xs: wrap(self.pp.joinpath(*[text(x) for x in xs]))), "with_name": g(lambda x: wrap(self.pp.with_name(x))), "with_suffix": g(lambda x: wrap(self.pp.with_suffix(x))),
+            "as_posix": g(lambda: self.path), "__fspath__": g(lambda: self.path), "is_absolute": g(self.pp.is_absolute), "match": g(lambda x: self.pp.match(x)),
+        }
+
+    @property
+    def path(self):
+        return str(self.pp)
+
+    def join(self, other):
+        if isinstance(other, _PathV):
+            return _PathV(self.fs, self.pp / other.pp)
+        if isinstance(other, str):
+            return _PathV(self.fs, self.pp / other)
+        raise CannotEval(f"path / {type(other).__name__}")
+
+    def rjoin(self, other):
+        if isinstance(other, str):
+            return _PathV(self.fs, other / self.pp)
+        raise CannotEval(f"{type(other).__name__} / path")
+
+    def __fspath__(self):
+        return self.path
+
+    def __str__(self):
+        return self.path
+
+    def __repr__(self):
+        return f"Path({self.path!r})"
+
+    def __eq__(self, other):
+        return isinstance(other, _PathV) and self.pp == other.pp
+
+    def __ne__(self, other):
+        return not self == other
+
+    def __hash__(self):
+        return hash(self.pp)
+
+    def __lt__(self, other):
+        if not isinstance(other, _PathV):
+            raise TypeError("order of a path and something else")
+        return self.pp < other.pp
+
+
 class _FsModel:
     """A model of the part of the environment the race file store touches: a file system (POSIX paths; files with text content, directories), `open`, os / os.path / glob / fnmatch /
     json functions over it. glob follows the documented semantics (the pattern is matched segment by segment with fnmatch; a pattern without wildcard characters names the path
@@ -1501,6 +1635,8 @@ class _FsModel:
 
     @staticmethod
     def norm(p):
+        if isinstance(p, _PathV):
+            p = p.path
         if not isinstance(p, str) or not p:
             raise CannotEval(f"path {p!r} in the model file system")
         return posixpath.normpath(p)
@@ -1597,6 +1733,11 @@ class _FsModel:
                 raise CannotEval(f"json: not a file of the model ({meth})")
             return f_obj.calls[meth](list(args), {}, None)
 
+        def path_ctor(a, k, n):
+            if k or not all(isinstance(x, (str, _PathV)) for x in a):
+                raise CannotEval(f"call {short(n, 60)}: path from something that is neither text nor a path")
+            return _PathV(self, PurePosixPath(*[x.pp if isinstance(x, _PathV) else x for x in a]))
+
         path_calls = {"join": guarded(posixpath.join), "dirname": guarded(posixpath.dirname), "basename": guarded(posixpath.basename), "normpath": guarded(posixpath.normpath),
                       "split": guarded(posixpath.split), "splitext": guarded(posixpath.splitext), "exists": guarded(self.exists), "lexists": guarded(self.exists),
                       "isfile": guarded(lambda p_: self.norm(p_) in self.files), "isdir": guarded(lambda p_: self.norm(p_) in self.dirs)}
@@ -1605,6 +1746,7 @@ class _FsModel:
             "os": lambda: _Stub(calls={"makedirs": guarded(lambda p_, mode=0o777, exist_ok=False: self.makedirs(p_, exist_ok)), "listdir": guarded(self.listdir)}, path=_Stub(calls=path_calls), sep="/"),
             "glob": lambda: _Stub(calls={"glob": guarded(lambda p_, recursive=False: self.glob(p_) if not recursive else _Machine._no(ast.Constant(value="glob(recursive=True)"))),
                                          "iglob": guarded(lambda p_: self.glob(p_)), "escape": guarded(_glob.escape), "has_magic": guarded(_glob.has_magic)}),
+            "pathlib": lambda: _Stub(calls={c_: path_ctor for c_ in ("Path", "PurePath", "PosixPath", "PurePosixPath")}),
             "fnmatch": lambda: _Stub(calls={"fnmatch": guarded(fnmatch.fnmatchcase), "fnmatchcase": guarded(fnmatch.fnmatchcase), "filter": guarded(lambda xs, p_: [x for x in xs if fnmatch.fnmatchcase(x, p_)])}),
             "json": lambda: _Stub(calls={"dumps": dumps, "loads": loads, "dump": lambda a, k, n: via(a[1], "write", dumps(a[:1], k, n)) if len(a) == 2 else _Machine._no(n),
                                          "load": lambda a, k, n: loads([via(a[0], "read")], {}, n) if len(a) == 1 and not k else _Machine._no(n)}),
@@ -1613,6 +1755,8 @@ class _FsModel:
         for nm, target in mod.imports.items():
             if target in library:
                 out[nm] = library[target]()
+            elif target in ("pathlib.Path", "pathlib.PurePath", "pathlib.PosixPath", "pathlib.PurePosixPath"):
+                out[nm] = _Stub(calls={"__call__": path_ctor})
             elif target.startswith("esrally.") and depth < 2 and self.repo.exists(target.replace(".", "/") + ".py"):
                 out[nm] = _Stub(calls=_LazyCalls(lambda rel=target.replace(".", "/") + ".py": self.package_module(rel, depth + 1)))
         return out
@@ -1733,6 +1877,206 @@ def race_file_round_trip(chk, rid, repo, met, mfuncs):
         chk.ob(rid, "FileRaceStore.list() reads back every stored race with its own results", ok, list_m,
                "" if ok else f"{len(got)} race(s) listed of {len(stored)} stored; not listed (or with other results): {missing[:4]}" + (f"; listed but never stored: {short_repr(alien[0], 100)}" if alien else ""),
                key=f"{_M}:FileRaceStore.list:all-races")
+
+
+class _Opaque(_Stub):
+    """a value of the environment that has no bearing on the property (a stop watch, the console, the reporter): a call on it gives another such value; a DECISION on it or one of its
+    attributes is not evaluable (the verdict is then 'not recognised')."""
+
+    class _Any(dict):
+        def __contains__(self, k):
+            return True
+
+        def __getitem__(self, k):
+            return lambda a, k_, n: _Opaque()
+
+        def get(self, k, default=None):
+            return self[k]
+
+    def __init__(self):
+        super().__init__()
+        self.calls = _Opaque._Any()
+
+    def __bool__(self):
+        raise CannotEval("a decision on a value of the environment the model does not follow")
+
+
+def _literal_attrs(mod, classes, method_names):
+    """attribute -> initial value over the named methods of the classes (farthest base first, in statement order): a literal initialiser gives its value, anything else a marker."""
+    out = {}
+    for k in reversed(classes):
+        for nm in method_names:
+            f = mod.methods(k).get(nm)
+            for n in walk_body(f) if f is not None else []:
+                if isinstance(n, ast.Assign) and is_self_attr(n.targets[0]):
+                    try:
+                        out[n.targets[0].attr] = ast.literal_eval(n.value)
+                    except (ValueError, TypeError, SyntaxError, MemoryError, RecursionError):
+                        out[n.targets[0].attr] = f"<{n.targets[0].attr}>"
+    return out
+
+
+def coordinator_results(chk, rid, repo, met, mfuncs):
+    """The coordinator's end-of-benchmark routine is RUN (machine) against an Elasticsearch metrics store whose methods are run over a stand-in client that models VISIBILITY (a record is
+    searchable once it was bulk-indexed AND the index was refreshed afterwards), a race object that runs Race.add_results, and stand-ins for the race store / results store that note
+    what the race carries when it is handed to them. The load driver's samples are in the index (the last ones not yet refreshed: the driver flushes with refresh=False), the
+    coordinator receives the final samples as a memento. Observed: what is searchable when the results are calculated, and which results the race carries when it is stored last."""
+    rel = "esrally/racecontrol.py"
+    if not repo.exists(rel):
+        raise AnchorMissing(rel)
+    rc = repo.module(rel)
+    chk.use(rc)
+    es_cls = met.get("EsMetricsStore", required=False)
+    race_cls = met.get("Race", required=False)
+    if not isinstance(es_cls, ast.ClassDef) or not isinstance(race_cls, ast.ClassDef) or "add_results" not in met.methods(race_cls):
+        raise AnchorMissing("EsMetricsStore / Race.add_results")
+    by_new = lambda pred: {n for n, f in mfuncs.items() if any(isinstance(c.func, ast.Name) and pred(c.func.id) for c in source.calls_in(f))}
+    has_method = lambda cname, m: isinstance(met.get(cname, required=False), ast.ClassDef) and m in _mro_methods(met, met.get(cname, required=False))
+    calc_fns = by_new(lambda c: c == "GlobalStatsCalculator")                    # role: the functions that run the results calculator
+    rstore_fns = by_new(lambda c: has_method(c, "store_results"))               # role: factories of a results store
+    racestore_fns = by_new(lambda c: has_method(c, "store_race")) - rstore_fns  # role: factories of a race store
+    if not calc_fns:
+        raise AnchorMissing("the function of esrally/metrics.py that runs GlobalStatsCalculator (calculate_results)")
+    aliases = {nm for nm, t in rc.imports.items() if t == "esrally.metrics"}
+    direct = {nm: t.rsplit(".", 1)[1] for nm, t in rc.imports.items() if t.startswith("esrally.metrics.")}
+
+    def metrics_fn(c):
+        """name of the function of esrally.metrics this call of racecontrol.py invokes (None: something else)."""
+        if isinstance(c.func, ast.Attribute) and isinstance(c.func.value, ast.Name) and c.func.value.id in aliases:
+            return c.func.attr
+        if isinstance(c.func, ast.Name) and c.func.id in direct:
+            return direct[c.func.id]
+        return None
+
+    sites = []
+    for cls in [n for n in rc.tree.body if isinstance(n, ast.ClassDef)]:
+        ms = rc.methods(cls)
+        for nm, f in ms.items():
+            for c in source.calls_in(f):
+                if metrics_fn(c) in calc_fns:
+                    sites.append((cls, ms, nm, c))
+    if not sites:
+        raise AnchorMissing("the method of esrally/racecontrol.py that calculates the results of the race (metrics.calculate_results(...))")
+    for cls, ms, holder, site in sites:
+        where = f"{cls.name}.{holder}"
+        a0 = site.args[0] if site.args else None
+        a1 = site.args[1] if len(site.args) > 1 else None
+        # by role: the attributes of the coordinator holding the metrics store / the race / the race store are the ones handed to the calculation, else the ones assigned from the
+        # factory functions of esrally.metrics (a function that instantiates a class with bulk_add / the Race class / a class with store_race)
+        from_factory = lambda fns: {n.targets[0].attr for f in ms.values() for n in walk_body(f) if isinstance(n, ast.Assign) and is_self_attr(n.targets[0]) and isinstance(n.value, ast.Call)
+                                    and metrics_fn(n.value) in fns}
+        store_attrs = {a0.attr} if is_self_attr(a0) else (from_factory(by_new(lambda c: has_method(c, "bulk_add"))) or
+                                                          {c.func.value.attr for f in ms.values() for c in source.calls_in(f) if isinstance(c.func, ast.Attribute) and c.func.attr == "bulk_add"
+                                                           and is_self_attr(c.func.value)})  # (else: the attribute the coordinator bulk-adds the samples to)
+        race_attrs = {a1.attr} if is_self_attr(a1) else from_factory(by_new(lambda c: c == race_cls.name))
+        racestore_attrs = from_factory(racestore_fns)
+        if len(store_attrs) != 1 or len(race_attrs) != 1 or len(racestore_attrs) != 1:
+            chk.unknown(rid, f"{where}: the attributes of {cls.name} holding the metrics store / the race / the race store are not located ({sorted(store_attrs)} / {sorted(race_attrs)} / "
+                        f"{sorted(racestore_attrs)}; `{short(site, 80)}`)", site)
+            continue
+        store_attr, race_attr = next(iter(store_attrs)), next(iter(race_attrs))
+        # entry points: the methods of the class that reach the calculation and that no other method of the class calls (a helper extracted from the routine belongs to its caller)
+        reach = {nm: [g.name for g in _reachable(ms, f)] for nm, f in ms.items()}
+        reaching = [nm for nm in ms if holder in reach[nm]]
+        roots = [nm for nm in reaching if not any(nm in reach[o] for o in reaching if o != nm)]
+        for root in roots:
+            _coordinator_run(chk, rid, rc, met, mfuncs, cls, ms, root, store_attr, race_attr, next(iter(racestore_attrs)), calc_fns, rstore_fns, aliases, direct, es_cls, race_cls, site)
+
+
+def _coordinator_run(chk, rid, rc, met, mfuncs, cls, ms, root, store_attr, race_attr, racestore_attr, calc_fns, rstore_fns, aliases, direct, es_cls, race_cls, site):
+    where = f"{cls.name}.{root}"
+    fd = ms[root]
+    key = f"esrally/racecontrol.py:{cls.name}.{root}"
+    d_seen, d_unseen, d_new = ({"name": "service_time", "value": v_, "n": i_} for i_, v_ in enumerate((1.0, 2.0, 3.0)))
+    written = [d_seen, d_unseen, d_new]
+    index = {"indexed": [d_seen, d_unseen], "visible": [d_seen]}  # the driver's last samples are indexed but not yet refreshed (it flushes with refresh=False)
+    memento, raw = b"<memento>", b"<pickled records>"
+
+    def bulk_index(a, k, n):
+        b = dict(zip(("index", "items"), a))
+        b.update(k)
+        if set(b) - {"index", "items"} or not isinstance(b.get("items"), list):
+            raise CannotEval(f"call {short(n, 60)}: bulk request of the stand-in client")
+        index["indexed"] = index["indexed"] + list(b["items"])
+
+    def refresh(a, k, n):
+        index["visible"] = list(index["indexed"])
+
+    # the Elasticsearch metrics store: its own methods, run over the stand-in client
+    es_methods = _mro_methods(met, es_cls)
+    client_attr = _EsRuns(met, es_cls, mfuncs, None).client_attr
+    es_fields = _literal_attrs(met, _mro_classes(met, es_cls), ("__init__", "open"))
+    es_fields.update({client_attr: _Stub(calls={"bulk_index": bulk_index, "refresh": refresh}), "logger": None})
+    es_obj = Record(**es_fields)
+    es_names = {}
+    for nm, t in met.imports.items():
+        es_names[nm] = (_Stub(calls={"loads": lambda a, k, n: [d_new] if len(a) == 1 and not k and a[0] is raw else _Machine._no(n)}) if t == "pickle" else
+                        _Stub(calls={"decompress": lambda a, k, n: raw if len(a) == 1 and not k and a[0] is memento else _Machine._no(n)}) if t == "zlib" else _Opaque())
+    for c_ in met.tree.body:
+        if isinstance(c_, ast.ClassDef) and any((last_attr(b) or "").endswith("Enum") for b in c_.bases):
+            try:
+                es_names[c_.name] = _enum_members(met, c_.name)
+            except AnchorMissing:
+                pass
+
+    def es_call(fn):
+        def f(a, k, n):
+            kind, val = _Machine(methods=es_methods, functions=mfuncs, names=es_names).run(fn, a, k, recv=es_obj)
+            if kind == "raise":
+                raise _Raised(val)
+            return val
+        return f
+
+    store = _Stub(calls={nm: es_call(fn) for nm, fn in es_methods.items()})
+    race = Record(**_literal_attrs(met, _mro_classes(met, race_cls), ("__init__",)))
+    race.fields["results"] = {}
+    race.fields["add_results"] = _Closure(met.methods(race_cls)["add_results"], {}, recv=race)
+    results = Record(marker="the results calculated for this race")
+    calcs, stored, flat = [], [], []
+
+    def calc(fn):
+        def f(a, k, n):
+            b = _Machine().bind(mfuncs[fn], a, k)
+            ps_ = params_of(mfuncs[fn])
+            calcs.append({"own_store": bool(ps_) and b.get(ps_[0]) is store, "missing": [d for d in written if not any(d is v for v in index["visible"])]})
+            return results
+        return f
+
+    note = lambda log: (lambda a, k, n: log.append(a[0].fields.get("results") if len(a) == 1 and not k and a[0] is race else _Machine._no(n)))
+    mcalls = {fn: calc(fn) for fn in calc_fns}
+    mcalls.update({fn: (lambda a, k, n: _Stub(calls={"store_results": note(flat)})) for fn in rstore_fns})
+    names = {nm: _Opaque() for nm in rc.imports}
+    names.update({nm: _Stub(calls=mcalls) for nm in aliases})
+    names.update({nm: _Stub(calls={"__call__": mcalls[fn]}) for nm, fn in direct.items() if fn in mcalls})
+    fields = _literal_attrs(rc, [cls], ("__init__",))
+    fields.update({store_attr: store, race_attr: race, racestore_attr: _Stub(calls={"store_race": note(stored)}), "logger": None})
+    coord = Record(**fields)
+    params = [p_ for p_ in params_of(fd) if p_ not in ("self", "cls")]
+    try:
+        kind, val = _Machine(methods=ms, functions=_module_functions(rc), names=names).run(fd, [memento] * len(params), recv=coord)
+    except (CannotEval, _Unsup) as x:
+        chk.unknown(rid, f"{where} is not evaluable against the model of the metrics store / race store: {x}"[:300], fd)
+        return
+    if kind != "return" or not calcs:
+        chk.unknown(rid, f"{where} does not reach the results calculation on a completed (not cancelled, no error) benchmark: {kind} {short_repr(val)}"[:300], fd)
+        return
+    if not all(c_["own_store"] for c_ in calcs):
+        chk.unknown(rid, f"{where}: the results are calculated from something other than the coordinator's metrics store", site)
+        return
+    miss = [d for c_ in calcs for d in c_["missing"]]
+    what = {0: "a sample the load driver indexed without a refresh", 1: "a sample the load driver indexed without a refresh", 2: "a sample of the final bulk the coordinator added"}
+    chk.ob(rid, f"{where}: every sample written to the Elasticsearch metrics store (by the load driver without a refresh, by the coordinator's final bulk) is indexed and refreshed - "
+           "searchable - when the results are calculated", not miss, site,
+           "" if not miss else f"when `{short(site, 70)}` runs, {len({d['n'] for d in miss})} of {len(written)} written samples are not searchable ({'; '.join(sorted({what[d['n']] for d in miss}))}): "
+           "the statistics describe a subset of the samples", key=f"{key}:searchable-before-results")
+    ok = bool(stored) and stored[-1] is results
+    chk.ob(rid, f"{where}: the race handed to the race store last (race.json, read back by compare / list) carries the results calculated for it", ok, site,
+           "" if ok else ("the race is not stored after its results were calculated" if not stored else
+                          f"store_race receives a race whose results are {short_repr(stored[-1], 60)} (the calculated results are attached later or never)"), key=f"{key}:race-stored-with-results")
+    if flat:
+        ok2 = all(r_ is results for r_ in flat)
+        chk.ob(rid, f"{where}: the race handed to the results store carries the results calculated for it", ok2, site,
+               "" if ok2 else f"store_results receives a race whose results are {short_repr(next(r_ for r_ in flat if r_ is not results), 60)}", key=f"{key}:results-stored-with-results")
 
 
 def run(chk):
@@ -2687,6 +3031,14 @@ def run(chk):
              "a user-chosen race id (--race-id) such as `shards[1]` or `what-if?`: compare shows the per-task and global metrics of ANOTHER race (or reports a stored race as missing)")
     race_file_round_trip(chk, "O8.12", repo, met, mfuncs)
 
+    # ---- O8.13 the coordinator calculates the results from a searchable store and stores the race with them -----------------------------------------------------------------
+    chk.rule("O8.13", "end of the benchmark (coordinator): when the results are calculated every sample written to the Elasticsearch metrics store is searchable (bulk-indexed AND the "
+             "index refreshed after the last write, by whichever process wrote it), and the race that is stored last - the document compare / list races read back - carries exactly "
+             "those results; so does the race handed to the results store", 3,
+             "an Elasticsearch metrics store (the driver flushes without refresh) gives statistics of a subset of the samples; or race.json is written without the results, so compare "
+             "shows no per-task and no global metrics")
+    coordinator_results(chk, "O8.13", repo, met, mfuncs)
+
 
 from sa.selftest import V  # noqa: E402
 
@@ -2987,4 +3339,30 @@ VARIANTS = [
       "        race_file = os.path.join(paths.race_root(self.cfg, race_id), \"race.json\")\n        if not os.path.isfile(race_file):\n            raise exceptions.NotFound(f\"No race with race id [{race_id}]\")\n"
       "        for race in self._to_races([race_file]):\n            return race\n"),
     V("race file written with json.dump and read with json.load (benign b3 shape)", "keep", _M, "            f.write(json.dumps(doc, indent=True, ensure_ascii=False))", "            json.dump(doc, f, indent=True, ensure_ascii=False)"),
+    # O8.13: the coordinator's end-of-benchmark routine (seeds m17, m18)
+    V("seed m17: no flush / refresh before the results are calculated", "break", _RC, "        self.metrics_store.bulk_add(new_metrics)\n        self.metrics_store.flush()\n", "        self.metrics_store.bulk_add(new_metrics)\n", "O8.13"),
+    V("final flush without a refresh", "break", _RC, "        self.metrics_store.bulk_add(new_metrics)\n        self.metrics_store.flush()\n", "        self.metrics_store.bulk_add(new_metrics)\n        self.metrics_store.flush(refresh=False)\n", "O8.13"),
+    V("flush before the final bulk is added", "break", _RC, "        self.metrics_store.bulk_add(new_metrics)\n        self.metrics_store.flush()\n", "        self.metrics_store.flush()\n        self.metrics_store.bulk_add(new_metrics)\n", "O8.13"),
+    V("flush only after the results were calculated", "break", _RC, "        self.metrics_store.flush()\n        if not self.cancelled and not self.error:\n            final_results = metrics.calculate_results(self.metrics_store, self.race)\n",
+      "        if not self.cancelled and not self.error:\n            final_results = metrics.calculate_results(self.metrics_store, self.race)\n            self.metrics_store.flush()\n", "O8.13"),
+    V("seed m18: race stored before the results are attached", "break", _RC, "            self.race.add_results(final_results)\n            self.race_store.store_race(self.race)\n",
+      "            self.race_store.store_race(self.race)\n            self.race.add_results(final_results)\n", "O8.13"),
+    V("results never attached to the race", "break", _RC, "            self.race.add_results(final_results)\n", "", "O8.13"),
+    V("race not stored again after the results were calculated", "break", _RC, "            self.race.add_results(final_results)\n            self.race_store.store_race(self.race)\n", "            self.race.add_results(final_results)\n", "O8.13"),
+    V("results attached only after the results store received the race", "break", _RC, "            self.race.add_results(final_results)\n            self.race_store.store_race(self.race)\n            metrics.results_store(self.cfg).store_results(self.race)\n",
+      "            metrics.results_store(self.cfg).store_results(self.race)\n            self.race.add_results(final_results)\n            self.race_store.store_race(self.race)\n", "O8.13"),
+    V("explicit refresh=True, results under another local name", "keep", _RC, "        self.metrics_store.flush()\n        if not self.cancelled and not self.error:\n            final_results = metrics.calculate_results(self.metrics_store, self.race)\n            self.race.add_results(final_results)\n",
+      "        self.metrics_store.flush(refresh=True)\n        if not self.cancelled and not self.error:\n            final_results = results = metrics.calculate_results(self.metrics_store, self.race)\n            self.race.add_results(results)\n", "O8.13"),
+    V("store and race handed to the calculation through locals", "keep", _RC, "            final_results = metrics.calculate_results(self.metrics_store, self.race)\n",
+      "            store, race = self.metrics_store, self.race\n            final_results = metrics.calculate_results(store, race)\n", "O8.13"),
+    V("flush without a refresh followed by a flush with one before the calculation", "keep", _RC, "        self.metrics_store.bulk_add(new_metrics)\n        self.metrics_store.flush()\n", "        self.metrics_store.bulk_add(new_metrics)\n        self.metrics_store.flush(refresh=False)\n        self.metrics_store.flush()\n", "O8.13"),
+    V("results store served before the race store (both after add_results)", "keep", _RC, "            self.race_store.store_race(self.race)\n            metrics.results_store(self.cfg).store_results(self.race)\n",
+      "            metrics.results_store(self.cfg).store_results(self.race)\n            self.race_store.store_race(self.race)\n", "O8.13"),
+    [V("calculation and storing extracted into a helper of the coordinator", "keep", _RC, "            final_results = metrics.calculate_results(self.metrics_store, self.race)\n            self.race.add_results(final_results)\n            self.race_store.store_race(self.race)\n",
+       "            final_results = self._results()\n"),
+     V("calculation and storing extracted into a helper of the coordinator", "keep", _RC, "    def on_task_finished(self, new_metrics):\n",
+       "    def _results(self):\n        r = metrics.calculate_results(self.metrics_store, self.race)\n        self.race.add_results(r)\n        self.race_store.store_race(self.race)\n        return r\n\n    def on_task_finished(self, new_metrics):\n")],
+    [V("flush moved into a helper that skips the refresh", "break", _RC, "        self.metrics_store.bulk_add(new_metrics)\n        self.metrics_store.flush()\n", "        self._take(new_metrics)\n", "O8.13"),
+     V("flush moved into a helper that skips the refresh", "break", _RC, "    def on_task_finished(self, new_metrics):\n",
+       "    def _take(self, m):\n        self.metrics_store.bulk_add(m)\n        self.metrics_store.flush(False)\n\n    def on_task_finished(self, new_metrics):\n", "O8.13")],
 ]
